@@ -90,6 +90,9 @@ func PrepareC10(ctx *Ctx) (*Prepared, error) {
 	for s := 0; s < 48; s++ {
 		add(fmt.Sprintf("VH_C10A_%02d", s), "c10a")
 	}
+	for s := 0; s < 48; s++ {
+		add(fmt.Sprintf("VH_C10R_%02d", s), "c10a")
+	}
 	for s := 0; s < 4; s++ {
 		add(fmt.Sprintf("VH_C10B_%02d", s), "c10b")
 	}
@@ -103,10 +106,10 @@ func PrepareC10(ctx *Ctx) (*Prepared, error) {
 	p.Assumptions = textAssumptions()
 	p.Stubs = []string{"vstub.FragReader (fault injection)", "fmt.* approximated"}
 	p.Bounds = map[string]interface{}{
-		"hosts":   "7 valid host schemas (struct, message, enum, [flags], union, consts, attributes/comments/import)",
-		"splice":  "1 (quick) / 1 and 2 (thorough) fully symbolic bytes (all 256 values each, hence every 1-2 byte UTF-8 prefix) inserted at every byte offset of every host",
+		"hosts":   "10 valid host schemas (struct, message, enum, [flags], union, consts, attributes/comments/import, empty bodies, no final newline, multi-line union with comments)",
+		"splice":  "1 (quick) / 1 and 2 (thorough) fully symbolic bytes (all 256 values each, hence every 1-2 byte UTF-8 prefix) inserted at every byte offset of every host; 1 fully symbolic byte replacing the byte at every offset (so a delimiter can vanish)",
 		"tail":    "the appended definition is a fixed struct",
-		"faults":  "underlying reader fails with a non-EOF error at every offset of every host, with and without data returned alongside the error",
+		"faults":  "underlying reader fails with a non-EOF error at every offset of every host, with and without data returned alongside the error, for good or once (transient)",
 		"outside": "windows longer than 2 bytes, several windows, hosts outside the list",
 	}
 	p.Explanation = "bounded symbolic execution of bebop.ReadFile on a valid schema with a symbolic byte window: absence of panics and runaway loops on every path; when the text and the text plus one more definition are both accepted, the definition must be present"
